@@ -6,7 +6,7 @@
 // ------------------------------------------------------------------------
 
 use super::{BerDecoder, BerHeader, SnmpOid, TAG_RELATIVE_OID, Tag};
-use crate::error::SnmpResult;
+use crate::error::{SnmpError, SnmpResult};
 
 #[derive(Debug, PartialEq, Clone)]
 pub struct SnmpRelativeOid<'a>(&'a [u8]);
@@ -23,6 +23,21 @@ impl<'a> BerDecoder<'a> for SnmpRelativeOid<'a> {
 }
 
 impl SnmpRelativeOid<'_> {
+    /// Apply relative oid to absolute one,
+    /// refusing the input `normalize` cannot handle:
+    /// an empty base, or a relative oid too short
+    /// to replace the base entirely
+    pub fn try_normalize<'a>(&self, oid: &SnmpOid) -> SnmpResult<SnmpOid<'a>> {
+        if oid.0.is_empty() {
+            return Err(SnmpError::InvalidData);
+        }
+        let rel_si = SnmpRelativeOid::subelements(self.0);
+        let base_si = SnmpRelativeOid::subelements(&oid.0[1..]);
+        if rel_si >= base_si && self.0.len() < 2 {
+            return Err(SnmpError::InvalidData);
+        }
+        Ok(self.normalize(oid))
+    }
     /// Apply relative oid to absolute one
     /// and return normalized absolute oid
     pub fn normalize<'a>(&self, oid: &SnmpOid) -> SnmpOid<'a> {
